@@ -399,6 +399,42 @@ def gen_edit(rng, obj, allow_absent=True):
     return ("setmf", {"d": d})
 
 
+def value_class(op, a, obj):
+    """coarse class of an edit's argument, for the coverage histogram"""
+    def vc(v):
+        return "zero" if v == 0.0 else ("trace" if abs(v) < 1e-40 else "value")
+    here = set(obj.getNuclides())
+    if op == "setnd":
+        return ("absent-" if a["n"] not in here else "") + vc(a["v"])
+    if op in ("upd", "setnds", "setmf"):
+        d = a["d"]
+        if not d:
+            return "empty"
+        tags = sorted({vc(v) for v in d.values()} | ({"absent"} if any(n not in here for n in d) else set()))
+        return f"n={min(len(d), 3)}{'+' if len(d) > 3 else ''}:" + "+".join(tags)
+    if op == "scale":
+        return {0.0: "zero", 1.0: "identity"}.get(a["f"], "shrink" if a["f"] < 1 else "grow")
+    return "zero" if a["m"] == 0.0 else "value"
+
+
+def sym_of(obj):
+    lvl = level_of(obj)
+    if lvl == "core":
+        return 1.0
+    if lvl == "component":
+        return float(obj.parent.getSymmetryFactor()) if obj.parent else 1.0
+    return float(obj.getSymmetryFactor())
+
+
+def _rec(ctx, stream, obj, op, a, res, vclass, sample=None):
+    """distinct = (level, edit kind, value class, symmetry factor, object type, result) combinations exercised
+    (value class judged on the state BEFORE the edit)"""
+    lvl = level_of(obj)
+    combo = (lvl, op, vclass, f"sym{sym_of(obj):g}", res)
+    ctx.count("combo " + "/".join(combo))
+    ctx.case(combo + (str(obj.getType()) if lvl != "core" else "core",), nontrivial=True, sample=sample)
+
+
 def apply_real(obj, op, a):
     """apply on the real object; 'ok' | 'reject'."""
     EPOCH[0] += 1
@@ -577,10 +613,10 @@ def edit_sequence(ctx, mir, assemblies, paths, targets, nedits, label, resync=6)
         case = {"stream": label, "object": str(obj.name if hasattr(obj, "name") else obj), "level": lvl,
                 "step": step, "op": op, "args": a}
         bef = before_state(obj)
+        combo_before = value_class(op, a, obj)
         res = apply_real(obj, op, a)
         ctx.count(f"edit {op} @{lvl}: {res}")
-        ctx.case((label, step, op, lvl, repr(sorted(a.items(), key=str))[:80]), nontrivial=True,
-                 sample=case if step == 0 else None)
+        _rec(ctx, label, obj, op, a, res, combo_before, case if step == 0 else None)
 
         def fail(key, clause, observed, expected, case=case):
             ctx.fail(key, clause, case, observed=observed, expected=expected)
@@ -690,9 +726,10 @@ def run_core(ctx, r):
             op, a = "scale", {"f": 1.25}
         ecase = dict(case, object=str(getattr(obj, "name", "core")), level=level_of(obj), step=step, op=op, args=a)
         bef = before_state(obj)
+        combo_before = value_class(op, a, obj)
         res = apply_real(obj, op, a)
         ctx.count(f"edit {op} @{level_of(obj)}: {res}")
-        ctx.case(("core-edit", step, op), nontrivial=True)
+        _rec(ctx, "reference core", obj, op, a, res, combo_before)
         ef = lambda k, c, o, e, ecase=ecase: ctx.fail(k, c, ecase, observed=o, expected=e)  # noqa: E731
         edit_oracle(obj, op, a, res, bef, ef)
         mir.emit(model_line(mir, paths[id(obj)], op, a), expect_result(ctx, "core: edit accepted/refused", ecase, res))
@@ -747,9 +784,10 @@ def run_zero_refill(ctx, r):
             continue
         case = {"stream": label, "level": level_of(obj), "step": step, "op": op, "args": args}
         bef = before_state(obj)
+        combo_before = value_class(op, args, obj)
         res = apply_real(obj, op, args)
         ctx.count(f"edit {op} @{level_of(obj)}: {res}")
-        ctx.case((label, step), nontrivial=True)
+        _rec(ctx, label, obj, op, args, res, combo_before)
         fail = lambda k, cl, o, e, case=case: ctx.fail(k, cl, case, observed=o, expected=e)  # noqa: E731
         edit_oracle(obj, op, args, res, bef, fail)
         mir.emit(model_line(mir, paths[id(obj)], op, args), expect_result(ctx, f"{label}: accepted/refused", case, res))
@@ -870,6 +908,14 @@ def run_generated(ctx):
         case = {"stream": label, "assembly": idx, "blocks": len(blocks),
                 "components": [[(c.name, type(c).__name__, c.material.name) for c in b] for b in blocks][:2]}
         fail = lambda k, c, o, e, case=case: ctx.fail(k, c, case, observed=o, expected=e)  # noqa: E731
+        for gb in blocks:
+            tot = sum(float(c.getArea()) for c in gb)
+            if not fclose(tot, float(gb.getMaxArea())):
+                fail("derived-shape-closes-area", "component areas of a block with a derived shape sum to the block's max area",
+                     tot, float(gb.getMaxArea()))
+            if not fclose(float(gb.getVolume()) * float(gb.getSymmetryFactor()), float(gb.getMaxArea()) * float(gb.getHeight())):
+                fail("derived-shape-closes-volume", "block volume == max area x height / symmetry factor",
+                     float(gb.getVolume()) * float(gb.getSymmetryFactor()), float(gb.getMaxArea()) * float(gb.getHeight()))
         for o in [a] + blocks:
             nucs = pick_nucs(rng, o, 4)
             # generated assemblies mix block cross sections: volume additivity at assembly level is F5's business
@@ -945,6 +991,115 @@ def run_conversions(ctx):
     run_session(ctx, mir, "densityTools")
 
 
+def run_derived(ctx, r):
+    """DerivedShape (left-over coolant): volume/area = block max area x height - siblings, on the reference
+    reactor's blocks and again after thermal expansion of a neighbour (the derived area must follow)."""
+    from armi.reactor.components import DerivedShape
+    from armi.materials import material
+
+    core = r.core
+    rng = ctx.rng
+    SQ3 = math.sqrt(3.0)
+    assems = list(core)
+    cut = [a for a in assems if a.getSymmetryFactor() != 1.0]
+    chosen = assems if ctx.thorough else cut[:3] + rng.sample([a for a in assems if a.getSymmetryFactor() == 1.0], 5)
+    mir = Mirror()
+    mir.emit("new")
+
+    def check_block(b, case, tag):
+        derived = [c for c in b if isinstance(c, DerivedShape)]
+        ctx.count(f"blocks with {len(derived)} derived shape(s)")
+        if len(derived) != 1:
+            return
+        d = derived[0]
+        sibs = [c for c in b if c is not d]
+        sym = float(b.getSymmetryFactor())
+        amax, h = float(b.getMaxArea()), float(b.getHeight())
+        dv, da = float(d.getVolume()), float(d.getArea())
+        svol = [float(c.getVolume()) for c in sibs]
+        sarea = [float(c.getArea()) for c in sibs]
+        fail = lambda k, cl, o, e: ctx.fail(k, cl, dict(case, state=tag), observed=o, expected=e)  # noqa: E731
+        tot_area = da + sum(sarea)
+        if not fclose(tot_area, amax):
+            fail("derived-shape-closes-area", "component areas of a block with a derived shape sum to the block's max area",
+                 tot_area, amax)
+        if not fclose(float(b.getVolume()) * sym, amax * h):
+            fail("derived-shape-closes-volume", "block volume == max area x height / symmetry factor", float(b.getVolume()) * sym,
+                 amax * h)
+        if not fclose(float(b.getArea()) * sym, amax):
+            fail("derived-shape-closes-area", "block area == max area / symmetry factor", float(b.getArea()) * sym, amax)
+        if not fclose(float(b.getVolume()) * sym, dv + sum(svol)):
+            fail("volume-additive-block", "block volume == sum of component volumes / symmetry factor", float(b.getVolume()) * sym,
+                 dv + sum(svol))
+        if dv < 0:
+            fail("derived-shape-negative", "the derived volume is not negative", dv, ">= 0")
+
+        def chk(vals, what):
+            def check(line):
+                if line in ("reject", "bad-op"):
+                    ctx.disagree(what, dict(case, state=tag), line, vals)
+                    return
+                qs = [common.unrat(x) for x in (common.parse_list(line) if line.startswith("[") else [line])]
+                if len(qs) != len(vals) or any(not rel_close(v, q, scale=amax * 1e-6) for v, q in zip(vals, qs)):
+                    ctx.disagree(what, dict(case, state=tag), [float(q) for q in qs], vals)
+            return check
+
+        mir.emit(f"derived {rat(amax)} {rat(h)} {ratlist(svol)} {ratlist(sarea)}",
+                 chk([dv, da], "Compo.deriveVolumeAndArea vs DerivedShape"))
+        mir.emit(f"hexmaxarea {rat(SQ3)} {rat(b.getPitch())}", chk([amax], "Compo.hexMaxArea vs HexBlock.getMaxArea"))
+        cold = [float(c.getArea(cold=True)) for c in sibs]
+        mir.emit(f"derivedat {rat(amax)} {ratlist(cold)}",
+                 chk([float(d.getArea(cold=True))], "Compo.derivedAreaAt vs DerivedShape.getComponentArea(cold=True)"))
+        return da, sum(sarea), amax
+
+    for a in chosen:
+        for b in a:
+            case = {"stream": "derived shape", "block": b.name, "sym": float(b.getSymmetryFactor())}
+            ctx.case(("derived", b.name), nontrivial=True)
+            first = check_block(b, case, "as loaded")
+            if first is None:
+                continue
+            # thermal expansion of neighbours on a private copy: the derived area must follow
+            with common.quiet():
+                bc = copy.deepcopy(b)
+            solids = [c for c in bc if not isinstance(c, DerivedShape) and not isinstance(c.material, material.Fluid)]
+            if not solids:
+                continue
+            for c in rng.sample(solids, min(2, len(solids))):
+                try:
+                    with common.quiet():
+                        c.setTemperature(float(c.temperatureInC) + rng.choice([-40.0, 75.0, 150.0]))
+                except Exception:
+                    continue
+            try:
+                second = check_block(bc, dict(case, moved=[c.name for c in solids][:2]), "after neighbour expansion")
+            except RuntimeError:
+                ctx.count("derived: neighbour without expansion correlation (skipped)")
+                continue
+            if second is not None:
+                (da0, s0, m0), (da1, s1, m1) = first, second
+                ctx.count("derived area followed a neighbour" if da1 != da0 else "derived area unchanged")
+                if not fclose(da1 - da0, (m1 - m0) - (s1 - s0), scale=m0 * 1e-9):
+                    ctx.fail("derived-shape-follows", "derived area changes by -(change of sibling areas) + (change of max area)",
+                             dict(case, state="after neighbour expansion"), observed=da1 - da0, expected=(m1 - m0) - (s1 - s0))
+    # excluded point: a second derived shape in the block
+    try:
+        with common.quiet():
+            bc = copy.deepcopy(chosen[0][1])
+            from armi.reactor import components
+
+            bc.add(components.DerivedShape("coolant2", "Sodium", 450.0, 450.0))
+            for c in bc:
+                c.clearCache()
+            v = [float(c.getVolume()) for c in bc]
+        ctx.count("second derived shape: accepted (volumes computed)")
+    except ValueError:
+        ctx.count("second derived shape: ValueError")
+    except Exception as e:
+        ctx.count(f"second derived shape: {type(e).__name__}")
+    run_session(ctx, mir, "derived shape")
+
+
 def run_findings(ctx, r):
     """excluded points listed in findings.d/C02.txt: shown to still reproduce on the real code."""
     from armi.reactor.flags import Flags
@@ -1001,20 +1156,35 @@ def guarded(ctx, name, fn):
 
 def run(ctx):
     with common.scratch_dir():
-        r = make_reference(ctx)
+        try:
+            r = make_reference(ctx)
+        except common.Infra:
+            raise
+        except Exception as e:
+            # armi refuses its own shipped reference input (e.g. its block-area consistency check)
+            ctx.fail("reference-reactor-load-raises", "the shipped reference reactor loads and its blocks are consistent",
+                     {"stream": "reference core"}, observed=repr(e)[:400])
+            guarded(ctx, "densityTools", lambda: run_conversions(ctx))
+            guarded(ctx, "generated", lambda: run_generated(ctx))
+            return
         guarded(ctx, "densityTools", lambda: run_conversions(ctx))
         guarded(ctx, "reference core", lambda: run_core(ctx, r))
         guarded(ctx, "assemblies", lambda: run_assemblies(ctx, r))
         guarded(ctx, "void-and-refill", lambda: run_zero_refill(ctx, r))
         guarded(ctx, "generated", lambda: run_generated(ctx))
+        guarded(ctx, "derived shape", lambda: run_derived(ctx, r))
         guarded(ctx, "findings", lambda: run_findings(ctx, r))
     ctx.rule = ("reference third-core reactor with edge assemblies (symmetry factors 1, 2, 3): every assembly and the core "
                 "compared and checked for additivity; seeded edit sequences (9 edit kinds x 4 levels, values incl. 0.0, 1e-50, "
                 "identity factors, absent nuclides, refused calls) on centre / edge / ordinary assemblies, a void-and-refill "
                 "script, and generated assemblies of 1-6 blocks built from real shape classes (Circle, Helix, Hexagon, "
                 "Rectangle, Triangle, HoledHexagon, Square, DerivedShape) x library materials, detached or at the centre of a "
-                "third-core grid; densityTools conversions on random compositions. distinct = (stream, step, edit) / object; "
-                "each is a real API call compared with the model after the edit and judged by the oracle.")
+                "third-core grid; derived (left-over) shapes of the reference blocks, as loaded and after thermal expansion "
+                "of a neighbour; densityTools conversions on random compositions. distinct = object (read-only comparisons) / edit combination; "
+                "each is a real API call compared with the model after the edit and judged by the oracle. For edits, "
+                "distinct counts the (level, edit kind, value class [zero / trace / value / absent nuclide / empty / identity / "
+                "shrink / grow], symmetry factor, object type, accepted-or-refused) combinations actually exercised; the "
+                "'combo ...' histogram entries give the number of edits per combination.")
 
 
 def search(ctx, disagreements, broken):
